@@ -417,6 +417,10 @@ class ModGen:
                 self.feats.add("array")
             if kind == "pair":
                 self.feats.add("pair")
+                if o.bundles and d.bool(40):
+                    # not h.Pair but an InstanceBundleType of the design's own, its members underscore variants of each other
+                    inst["members"] = d.choice([["x", "x_"], ["p", "p_"], ["a", "b", "a_"], ["n", "n_", "n__"], ["q"]])
+                    self.feats.add("own_instance_bundle_type")
             plan.append((inst, iface))
         # per-port plans
         self.portinfo = {}
@@ -633,6 +637,12 @@ class ModGen:
                 self.feats.add("array_per_element")
                 return self.expr(n * w, 0, allow_ref=False, cur=key)
             self.feats.add("array_broadcast")
+            return self.expr(w, 0, allow_ref=False, cur=key)
+        if kind == "pair" and inst.get("members"):
+            if d.int(0, 9) < 7:
+                self.feats.add("pair_anon")
+                return ["anon", [[mn, self.expr(w, 1, allow_ref=False, cur=key)] for mn in inst["members"]]]
+            self.feats.add("pair_scalar")
             return self.expr(w, 0, allow_ref=False, cur=key)
         if kind == "pair":
             r = d.int(0, 9)
